@@ -38,6 +38,11 @@ spec/redis/ConnTable.tla: backend connection table + shared connect calls + clie
     same addresses with the collector's passes back to back - every request answered, every backend served again over a
     new connection.  Every history / traffic item runs in its own worker process: a death of the process with frames of
     the code under test on the panicking goroutine, reproduced when the item is run again, is a violation (`crash/...`).
+ 6. the periodic refresh (Refresh.tla: `timer`, LoopTick, change kind "silent" - the old master's address still accepts
+    connections and closes them at once, no request raises a trigger; RearmOnlyAfterTrigger = TRUE must violate
+    TimerArmed / Converges).  Code: `c07-periodic` with the period shortened to 150 ms; mandatory strata
+    (spec/redis/Strata_Refresh_periodic.cfg): a silent change after a quiet period in which the timer has fired, and in
+    the first period; then requests until one is served (the model: one period; never healed after 20 periods = violation).
 Owned: spec/redis/ConnTable.tla ConnTableGen.tla Refresh.tla RefreshGen.tla and their cfg files
        (MC_ConnTable_*, Gen_ConnTable, Strata_ConnTable, MC_Refresh*, Gen_Refresh, Strata_Refresh), harness/cases/c07, harness/cmd/c07.
 """
@@ -138,6 +143,8 @@ def run(ctx):
             ("ConnTable", "MC_ConnTable_pinned_cfgdefaults.cfg", ["NoCrash"]),
             # a refresh that leaves slots with an unchanged master alone never installs a new replica list
             ("Refresh", "MC_Refresh_skip.cfg", ["BoundedRounds", "TriggerKept"]),
+            # the periodic timer is only re-armed by a triggered refresh: after a quiet period nothing heals a silent change
+            ("Refresh", "MC_Refresh_rearm.cfg", ["TimerArmed", "Converges", "TEMPORAL"]),
             # a successful refresh that empties the trigger channel forgets the refresh asked for meanwhile
             ("Refresh", "MC_Refresh_drain.cfg", ["TriggerKept"]),
         ]
@@ -149,7 +156,8 @@ def run(ctx):
                      ("ConnTable", "MC_ConnTable_win_shared.cfg", ["NoSharedCounter"]),
                      ("ConnTable", "MC_ConnTable_win_freecollect.cfg", ["NoFreeDuringCollect"]),
                      ("Refresh", "MC_Refresh_window.cfg", ["NoWindow"]),
-                     ("Refresh", "MC_Refresh_window_replica.cfg", ["NoReplicaStale"])]
+                     ("Refresh", "MC_Refresh_window_replica.cfg", ["NoReplicaStale"]),
+                     ("Refresh", "MC_Refresh_window_silent.cfg", ["NoSilentChange"])]
         def stalled():
             # the stalled connection: in-flight queue full, writer at the hand-over of a command / of the ASKING
             # placeholder; every action of the module is taken in this configuration (ResetDone only in the variant
@@ -175,7 +183,7 @@ def run(ctx):
             # the quick tier runs this configuration only)
             ctx.mc("redis", "Refresh", "MC_Refresh_replica.cfg", workers=1, timeout=900)
 
-        with ThreadPoolExecutor(max_workers=5) as ex:
+        with ThreadPoolExecutor(max_workers=4) as ex:
             futs = [ex.submit(stalled), ex.submit(counters), ex.submit(refresh_loop)]
             futs += [ex.submit(ctx.mc, "redis", m, c, workers=1, timeout=900, expect_violated=v, count=False) for (m, c, v) in jobs]
             for f in futs:
@@ -191,6 +199,7 @@ def run(ctx):
     fut_g2 = epool.submit(ctx.tlc, "redis", "RefreshGen", "Gen_Refresh.cfg", mode="sim", workers=1, sim_num=rnum, sim_depth=60,
                           seed=ctx.seed, deadlock=False, timeout=900)
     fut_st2 = epool.submit(ctx.tlc, "redis", "RefreshGen", "Strata_Refresh.cfg", workers=1, deadlock=False, timeout=900)
+    fut_st3 = epool.submit(ctx.tlc, "redis", "RefreshGen", "Strata_Refresh_periodic.cfg", workers=1, deadlock=False, timeout=900)
     fut_big, fut_small = pool.submit(big), pool.submit(small)
 
     # ---------------------------------------------------------------- connection table: histories on the real code
@@ -299,7 +308,28 @@ def run(ctx):
     rbfile = os.path.join(ctx.work, "refresh-behaviours.ndjson")
     kit.write_ndjson(rbfile, rbehs)
     rrfile = os.path.join(ctx.work, "refresh.ndjson")
+    # the periodic refresh: silent layout changes, healed by the period only
+    st3 = fut_st3.result()
+    if st3.timeout or (st3.error and not st3.prints):
+        raise kit.Inconclusive("periodic strata emission failed: %s" % st3.error[:500])
+    pbest = {}
+    for (tag, p) in st3.prints:
+        if tag == "STRATUM":
+            for k in p["wins"]:
+                if k.startswith("silent:") and (k not in pbest or len(p["hist"]) < len(pbest[k])):
+                    pbest[k] = p["hist"]
+    st3.prints, st3.stdout = [], ""
+    pneed = ["silent:after-quiet-period", "silent:first-period"]
+    if set(pneed) - set(pbest):
+        raise kit.Inconclusive("strata not reachable in RefreshGen (Periodic): %s" % sorted(set(pneed) - set(pbest)))
+    pbehs = [{"flavour": "silent", "strategy": "MASTER", "key": k, "steps": pbest[k]} for k in pneed] * (3 if ctx.thorough else 1)
+    ctx.cov["periodic_strata"] = pneed
+    pbfile = os.path.join(ctx.work, "periodic-behaviours.ndjson")
+    kit.write_ndjson(pbfile, pbehs)
+    prfile = os.path.join(ctx.work, "periodic.ndjson")
+
     def run_refresh_traffic():
+        ctx.harness(["c07-periodic", "-in", pbfile, "-out", prfile], timeout=1800)
         ctx.harness(["c07-refresh", "-in", rbfile, "-out", rrfile, "-par", "4"], timeout=9000)
         ctx.harness(["c07-traffic", "-in", tfile, "-out", trfile, "-par", "4"], timeout=1800)
 
@@ -490,6 +520,34 @@ def run(ctx):
                     rmissed.append("%s/%s: %s" % (b["key"], flav, run1["diverged"]))
             else:
                 ctx.cov["traces_validated_against_impl"] += 1
+    pmissed = []
+    for res, b in zip(kit.read_ndjson(prfile), pbehs):
+        run1 = res["run"]
+        name = b["key"].split(":", 1)[1]
+        ctx.case(key=["periodic", b["key"], res["id"]], nontrivial=True)
+        art = {"behaviour": b, "result": res}
+        if run1.get("err"):
+            ctx.notes.append("periodic replay %d: %s" % (res["id"], run1["err"]))
+            pmissed.append("%s: %s" % (name, run1["err"][:200]))
+            continue
+        conf = res.get("confirm")
+        if not run1["healed"]:
+            if conf and not conf.get("err") and conf.get("changed") and not conf["healed"]:
+                ctx.violation("no-convergence/periodic-refresh-stopped/silent-change-%s" % name,
+                              "the old master's address closes every connection at once (no dial error, no redirection: nothing asks for a refresh) and the "
+                              "new master is reachable, but %d requests in %d refresh periods were all answered %s; CLUSTER NODES requests before the change: %d, after: %d"
+                              % (conf["failed"], 20, conf["lastReply"], conf["ticksBefore"], conf["ticksAfter"]), art)
+            else:
+                ctx.notes.append("periodic replay %d (%s): not healed in the first run, healed in the second" % (res["id"], name))
+            continue
+        if run1.get("diverged") or (name == "after-quiet-period" and run1["ticksBefore"] < 1):
+            pmissed.append("%s: %s" % (name, run1.get("diverged") or "the timer did not fire before the change"))
+            continue
+        if run1["healedPeriods"] > 3:
+            ctx.notes.append("periodic replay %d (%s): healed after %.1f periods (model: one, plus one in flight; loaded machine)" % (res["id"], name, run1["healedPeriods"]))
+        ctx.cov["traces_validated_against_impl"] += 1
+    if pmissed and not ctx.violations:
+        raise kit.Inconclusive("mandatory periodic strata not exercised on the code: %s" % "; ".join(pmissed[:3]))
     if rok < len(rbehs) * 0.8:
         raise kit.Inconclusive("refresh replay driver unhealthy: %d of %d" % (rok, len(rbehs)))
     if rmissed:
